@@ -187,7 +187,9 @@ def trial(cfg, tier, seed):
             nls = []
             for n in range(3):
                 try:
-                    nls.append(repr(build_netlist(Fragment.get(x, None), ports=[])))
+                    nl = build_netlist(Fragment.get(x, None), ports=[])
+                    # canonical text: the cells plus the name -> nets table (what the RTLIL back end would print)
+                    nls.append(repr(nl) + "\n" + "\n".join(sorted(f"{sig.name} {val!r}" for sig, val in nl.signals.items())))
                 except Watchdog.Timeout as e:
                     return viol(f"elaborate_timeout", e)
                 except BaseException as e:
@@ -212,8 +214,10 @@ def configs(tier):
     from ..gen.muxlayouts import layouts
     quick = tier == "quick"
     T = []
-    for lay in layouts(tier)[::(3 if quick else 1)]:
-        T.append(("mux_layout", lay))
+    for k, lay in enumerate(layouts(tier)):
+        # every layout with a finite sharing limit (the balancing code path), a third of the others
+        if not quick or lay["ov"] is not None or k % 3 == 0:
+            T.append(("mux_layout", lay))
     regopts = [(w, acc, addr, size) for w in (0, 1, 3) for acc in ("r", "w", "rw") for addr in (None, 0, 1, 2, 3, 5) for size in (1, 2, 3)]
     for al in (0, 1):
         for so in (None, 0, 1, 2):
@@ -327,6 +331,7 @@ def main(tier, seed):
 ASSUMPTIONS = [
     "parameter grids are bounded (see configs()); 'descriptive refusal' is decided mechanically: ValueError/TypeError whose innermost "
     "frame is a raise statement in amaranth_soc or amaranth that names the class raised",
-    "netlists are compared through their canonical text (repr of the NIR netlist); 'same hardware' = identical netlist",
+    "netlists are compared through their canonical text (NIR cells + signal-name table, i.e. the information the RTLIL back end "
+    "prints - the property's observation point is the RTLIL text of successive elaborations); 'same hardware' = identical text",
     f"non-termination is approximated by a {WATCHDOG_S}s watchdog per trial",
 ]
